@@ -203,8 +203,8 @@ pub fn c05() -> PropDef {
             c.min_chain = 1;
             c.src = SrcClass::Deep;
         }),
-        quick: (3000, 800),
-        thorough: (40000, 8000),
+        quick: (9000, 2400),
+        thorough: (60000, 12000),
         dense: dense_c05,
         check: check_c05,
         adjust: no_adjust,
@@ -424,8 +424,8 @@ pub fn c09() -> PropDef {
             ];
         }),
         sched: None,
-        quick: (4000, 0),
-        thorough: (60000, 0),
+        quick: (12000, 0),
+        thorough: (90000, 0),
         dense: dense_c09,
         check: check_c09,
         adjust: no_adjust,
